@@ -548,6 +548,20 @@ void PLS(matrix *mx, matrix *my, size_t nlv, int xautoscaling, int yautoscaling,
         }
         else{
           double bcoef = 0.f;
+          double ssx_left = 0.f;
+          /* When X is exhausted (more latent variables requested than its rank) what
+           * is left of it is rounding residue, 1e-16 of the data: a latent variable
+           * built from it would be rescaled to full size and change the fit. Set the
+           * residue to zero: the latent variable then comes out null.
+           */
+          for(i = 0; i < X->row; i++){
+            for(j = 0; j < X->col; j++){
+              ssx_left += square(X->data[i][j]);
+            }
+          }
+          if(ssx_left <= 1e-26*ssx)
+            MatrixSet(X, 0.f);
+
           /* Calculate the Latent Variable (LV) according the NIPALS algorithm */
           LVCalc(X, Y, t, u, p, q, w, &bcoef);
 
